@@ -385,7 +385,131 @@ def judge_grouping(spec, rec):
     return out
 
 
+
+# ----------------------------------------------------------------------------------------------------
+# debug leakage over call histories on shared grader objects (exhaustive over a small world)
+
+def _dh_worlds():
+    """name -> builder of (parent with debug=True, [(descendant configured WITHOUT debug, probe input)], parent inputs)."""
+    import mitxgraders as mg
+
+    def sl_formula():
+        sub = mg.FormulaGrader(variables=['x'])
+        return (mg.SingleListGrader(answers=['x', '2*x'], subgrader=sub, debug=True), [(sub, 'x')],
+                ['x, 2*x', '2*x, x', 'x, 3*x', 'x, 2*x+', 'x,,', 'x, y', '(x, 2*x', 'x', ''])
+
+    def sl_string():
+        sub = mg.StringGrader(validation_pattern='[a-z]+', explain_validation='err')
+        return (mg.SingleListGrader(answers=['a', 'b'], subgrader=sub, debug=True, length_error=True), [(sub, 'a')],
+                ['a, b', 'b, c', 'a, B4', 'a', 'a,,b'])
+
+    def sl_nested():
+        leaf = mg.NumericalGrader()
+        inner = mg.SingleListGrader(subgrader=leaf)
+        return (mg.SingleListGrader(answers=[['1', '2'], ['3', '4']], subgrader=inner, delimiter=';', debug=True),
+                [(leaf, '1'), (inner, None)], ['1,2;3,4', '3,4;1,2', '1,2;3,5', '1,2;3,', '1,2;3,4+', '1,2'])
+
+    def interval():
+        sub = mg.NumericalGrader()
+        return (mg.IntervalGrader(answers='[1,2)', subgrader=sub, debug=True), [(sub, '1')],
+                ['[1,2)', '(1,2]', '[1,3)', '[1, )', '[1,2', '{1,2)', '[1,2,3)', '[1,x)'])
+
+    def lg_single():
+        sub = mg.FormulaGrader(variables=['x'])
+        return (mg.ListGrader(answers=['x', '2*x'], subgraders=sub, debug=True), [(sub, 'x')],
+                [['x', '2*x'], ['2*x', 'x'], ['x', '3*x'], ['x', '2*x+'], ['x'], ['x', 'y'], ['x', '(2*x']])
+
+    def lg_ordered():
+        s1, s2 = mg.StringGrader(), mg.NumericalGrader()
+        return (mg.ListGrader(answers=['cat', '3'], subgraders=[s1, s2], ordered=True, debug=True), [(s1, 'cat'), (s2, '3')],
+                [['cat', '3'], ['dog', '3'], ['cat', '3+'], ['cat'], ['cat', 'three']])
+
+    def lg_grouped():
+        leaf = mg.FormulaGrader(variables=['x'])
+        inner = mg.ListGrader(subgraders=leaf)
+        return (mg.ListGrader(answers=[['x', '2*x'], ['3*x', '4*x']], subgraders=inner, grouping=[1, 1, 2, 2], debug=True),
+                [(leaf, 'x'), (inner, None)],
+                [['x', '2*x', '3*x', '4*x'], ['3*x', '4*x', 'x', '2*x'], ['x', '2*x', '3*x', '5*x'], ['x', '2*x', '3*x', '4*x+'],
+                 ['x', '2*x', '3*x'], ['x', 'y', '3*x', '4*x']])
+
+    def lg_singlelist():
+        leaf = mg.StringGrader()
+        sl = mg.SingleListGrader(subgrader=leaf)
+        return (mg.ListGrader(answers=[['a', 'b'], ['c', 'd']], subgraders=sl, debug=True), [(leaf, 'a'), (sl, 'a, b')],
+                [['a, b', 'c, d'], ['c,d', 'a,b'], ['a,b', 'c,e'], ['a,,b', 'c,d'], ['a,b']])
+    return {'sl_formula': sl_formula, 'sl_string': sl_string, 'sl_nested': sl_nested, 'interval': interval,
+            'lg_single': lg_single, 'lg_ordered': lg_ordered, 'lg_grouped': lg_grouped, 'lg_singlelist': lg_singlelist}
+
+
+def items_debug_history(tier):
+    worlds = _dh_worlds()
+    for name, build in sorted(worlds.items()):
+        n = len(build()[2])
+        for a in range(n):
+            yield {'world': name, 'seq': [a]}
+            for b in range(n):
+                yield {'world': name, 'seq': [a, b]}
+                if tier != 'quick':
+                    for c in range(n):
+                        yield {'world': name, 'seq': [a, b, c]}
+
+
+def _texts(res):
+    if not isinstance(res, dict):
+        return []
+    out = [res.get('msg') or '', res.get('overall_message') or '']
+    for e in res.get('input_list') or []:
+        out.append(e.get('msg') or '')
+    return out
+
+
+def judge_debug_history(spec, rec):
+    parent, subs, inputs = _dh_worlds()[spec['world']]()
+    raised = returned = 0
+    for k in spec['seq']:
+        set_seed(11)
+        st_, res = call(parent, None, inputs[k])
+        rec.calls()
+        if st_ == 'ok':
+            returned += 1
+            if not any(MARKERS[0] in t for t in _texts(res)):
+                raise Violation('debug-missing', '%s with debug=True returned no debug log for %r' % (spec['world'], inputs[k]))
+        else:
+            raised += 1
+            if not isinstance(res, MITxError):
+                return {'raised': type(res).__name__}      # C02's business
+    for sub, probe in subs:
+        if sub.config.get('debug'):
+            raise Violation('debug-leak/subgrader-after-debug-parent', '%s: the debug option of a %s configured without '
+                            'debug is switched on after its debug=True parent handled %r' % (
+                                spec['world'], type(sub).__name__, [inputs[k] for k in spec['seq']]))
+        if probe is None:
+            continue
+        set_seed(11)
+        st_, r2 = call(sub, probe, probe)      # the subgraders have no answers of their own: expect = the probe
+        rec.calls()
+        if st_ != 'ok':
+            raise Violation('debug-history/subgrader-alone-fails', '%s: %s(expect=%r, %r) raised %s: %s' % (
+                spec['world'], type(sub).__name__, probe, probe, type(r2).__name__, str(r2)[:200]))
+        rec.cls('debug-history/subgrader-alone-returned')
+        for t in _texts(r2):
+            for m in MARKERS:
+                if m in t:
+                    raise Violation('debug-leak/subgrader-after-debug-parent',
+                                    '%s: a %s configured without debug shows %r when called alone after its debug=True '
+                                    'parent handled %r' % (spec['world'], type(sub).__name__, m,
+                                                           [inputs[k] for k in spec['seq']]), text=t[:300])
+    rec.cls('debug-history/' + spec['world'])
+    if raised:
+        rec.cls('debug-history/parent-raised-then-subgrader-alone')
+    if raised and returned:
+        rec.cls('debug-history/mixed')
+    rec.nontrivial(raised > 0)
+    return {'parent_raised': raised, 'parent_returned': returned}
+
+
 PARTS = [
+    Part('debug-history', 'enum', judge_debug_history, items=items_debug_history, exhaustive=True),
     Part('graders', 'hyp', judge, strategy=lambda tier: strat_cases(tier),
          budget={'quick': 20000, 'thorough': 600000}),
     Part('products', 'hyp', judge, strategy=lambda tier: strat_products(tier),
